@@ -25,6 +25,8 @@ import (
 	"strconv"
 	"strings"
 	"sync"
+	"sync/atomic"
+	"syscall"
 	"time"
 
 	"github.com/logrange/logrange/api"
@@ -595,6 +597,7 @@ func runHistory(h *history, sec *vh.Section, section string) {
 		}
 	}
 	// MODEL
+	r.lines = append(r.lines, "pipe")
 	for i := 0; i < ns; i++ {
 		r.lines = append(r.lines, fmt.Sprintf("desc %d", i))
 	}
@@ -604,6 +607,14 @@ func runHistory(h *history, sec *vh.Section, section string) {
 	ans, derr := vh.Batch(args.Driver, r.lines)
 	if derr != nil {
 		res.Fatal(args.Out, "driver: %v", derr)
+	}
+	// the registry: the pipe exists iff the model says it is live (creation, deletion, restarts through the registry file)
+	{
+		_, gerr := r.srv.Pipes.GetPipe(h.Name)
+		implLive, modelLive := gerr == nil, strings.HasPrefix(ans[len(ans)-2*ns-1], "live")
+		if implLive != modelLive {
+			res.Mismatch(vh.Mismatch{Section: section, Function: "pipe registry at the end of the history", Input: h, Impl: fmt.Sprintf("exists=%v", implLive), Model: ans[len(ans)-2*ns-1]})
+		}
 	}
 	// saved positions: after the final quiescence the descriptor of every source the live pipe listens to stands at the
 	// end of what is stored — also when the last events were rejected by the filter (they are read once, not re-scanned)
@@ -1363,6 +1374,103 @@ func sectionParked(rng *vh.Rng, corpus []parkedCase) {
 }
 
 // ---------------------------------------------------------------------------------------------
+// a deleted pipe must leave no running machinery behind
+
+type respawnCase struct {
+	Variant string `json:"variant"` // stranded (Pos < LastKnwnPos at deletion) | caughtup
+}
+
+func cpuTime() time.Duration {
+	var ru syscall.Rusage
+	syscall.Getrusage(syscall.RUSAGE_SELF, &ru)
+	return time.Duration(ru.Utime.Nano() + ru.Stime.Nano())
+}
+
+// runRespawn: a pipe is deleted while its descriptor is behind LastKnwnPos (the notified batch is not yet flushed, the
+// worker waits for it). Afterwards nothing of the pipe may run: workers reaching pipe.worker.beforeDone are counted for
+// one second (the hook is process-global: this section runs alone), together with the CPU time of the process.
+func runRespawn(c respawnCase, sec *vh.Section) {
+	dir := lrsrv.NewDir()
+	defer os.RemoveAll(dir)
+	srv, err := lrsrv.Start(dir, lrsrv.Opts{WriteFlushMs: 600})
+	if err != nil {
+		res.Note("respawn: %v", err)
+		return
+	}
+	defer srv.Stop()
+	name, tl := "pd", "app=a1,grp=g1"
+	if _, err := srv.Pipes.CreatePipe(pipe.Pipe{Name: name, TagsCond: "grp=g1"}); err != nil {
+		res.Note("respawn: %v", err)
+		return
+	}
+	var hits int64
+	verifhook.Set("pipe.worker.beforeDone", func() { atomic.AddInt64(&hits, 1) })
+	defer verifhook.Set("pipe.worker.beforeDone", nil)
+	r := &runner{h: &history{Sources: []map[string]string{{"app": "a1", "grp": "g1"}}}, srv: srv, written: make([][]ev, 1)}
+	r.write(0, mkEvs("e", 0, 3), "direct")
+	if c.Variant == "caughtup" {
+		time.Sleep(1500 * time.Millisecond) // flushed and copied: Pos = LastKnwnPos
+	} else {
+		time.Sleep(50 * time.Millisecond) // notified, not flushed: the worker waits, Pos < LastKnwnPos
+	}
+	desc := descLine(srv, name, tl)
+	if err := srv.Pipes.DeletePipe(name); err != nil {
+		res.Note("respawn: %v", err)
+		return
+	}
+	time.Sleep(100 * time.Millisecond)
+	h0, c0, t0 := atomic.LoadInt64(&hits), cpuTime(), time.Now()
+	time.Sleep(time.Second)
+	h1, c1, dt := atomic.LoadInt64(&hits), cpuTime(), time.Since(t0)
+	respawns := h1 - h0
+	cpu := float64(c1-c0) / float64(dt)
+	// MODEL: after delete, is the cycle wtimeout/wdone of the source still enabled again and again?
+	lines := []string{"reset 1 0 true", "src 0 1 " + vh.HxS(tl), "create", "write 0 " + evsLine(mkEvs("e", 0, 3)), "enqueue 0", "notify", "wopen 0"}
+	if c.Variant == "caughtup" {
+		lines = append(lines, "wcopy 0 100", "wsave 0")
+	}
+	lines = append(lines, "delete")
+	for i := 0; i < 5; i++ {
+		lines = append(lines, "wtimeout 0", "wdone 0", "wopen 0")
+	}
+	ans, derr := vh.Batch(args.Driver, lines)
+	if derr != nil {
+		res.Fatal(args.Out, "driver: %v", derr)
+	}
+	modelSpins := ans[len(ans)-2] == "ok" // the fifth wdone after the deletion is still enabled
+	res.Eval(sec, c.Variant)
+	res.Dist(sec, c.Variant)
+	res.Sample(map[string]interface{}{"section": "respawn", "variant": c.Variant, "descriptor_at_delete": desc, "workers_finishing_per_second_after_delete": respawns, "cpu_cores_busy": fmt.Sprintf("%.2f", cpu)})
+	implSpins := respawns > 20
+	if implSpins != modelSpins {
+		res.Mismatch(vh.Mismatch{Section: "respawn", Function: "worker respawn cycle after DeletePipe", Input: c, Impl: fmt.Sprintf("%d workers/s", respawns), Model: fmt.Sprintf("cycle enabled=%v", modelSpins)})
+	}
+	if implSpins {
+		finding := ""
+		if c.Variant == "stranded" { // class: the pipe was deleted while a descriptor had Pos < LastKnwnPos
+			finding = "F49"
+		}
+		res.SpecFail(vh.SpecFailure{Section: "respawn", Kind: "busy-loop", Input: c, Impl: fmt.Sprintf("%d workers started and finished in 1 s after the deletion, %.2f CPU cores busy (descriptor at deletion: %s)", respawns, cpu, desc),
+			Spec: "no worker runs for a deleted pipe", Model: fmt.Sprintf("cycle enabled=%v", modelSpins), ImplEqModel: implSpins == modelSpins, Finding: finding,
+			What: "after DeletePipe a descriptor with Pos < LastKnwnPos makes workerDone start a worker whose context is already cancelled, again and again, until the server stops"})
+	}
+}
+
+func sectionRespawn(corpus []respawnCase) {
+	sec := res.Section("respawn", "spec-search",
+		"a pipe deleted while its descriptor is behind LastKnwnPos (batch notified, not yet flushed: 600 ms flush) and, as control, after it caught up; for one second after the deletion the workers passing pipe.worker.beforeDone are counted and the CPU time of the process is measured; compared with the Lean LTS (is wtimeout/wdone/wopen of the source still enabled after delete); runs alone because the hook is process-global; non-trivial = every case")
+	cs := append([]respawnCase{}, corpus...)
+	cs = append(cs, respawnCase{Variant: "caughtup"})
+	if len(corpus) == 0 {
+		cs = append(cs, respawnCase{Variant: "stranded"})
+	}
+	for _, c := range cs {
+		runRespawn(c, sec)
+	}
+	res.Done(sec)
+}
+
+// ---------------------------------------------------------------------------------------------
 // stress (thorough): free-running racing first writes; back-to-back writes behind a reading worker
 
 func sectionStress(rng *vh.Rng) {
@@ -1530,6 +1638,8 @@ type corpusDoc struct {
 	Input   json.RawMessage `json:"input"`
 }
 
+var corpusRespawn []respawnCase
+
 func sectionCorpus() (parked []parkedCase) {
 	sec := res.Section("corpus", "corpus", "witnesses of the open findings and minimised past failures (corpus/C10/*.json), replayed first: histories through the same runner as section history, parked cases in section parked")
 	var hs []*history
@@ -1550,6 +1660,11 @@ func sectionCorpus() (parked []parkedCase) {
 			if json.Unmarshal(d.Input, &c) == nil {
 				parked = append(parked, c)
 			}
+		case "respawn":
+			var c respawnCase
+			if json.Unmarshal(d.Input, &c) == nil {
+				corpusRespawn = append(corpusRespawn, c)
+			}
 		}
 	}
 	runPar(hs, 12, func(h *history) { runHistory(h, sec, "corpus") })
@@ -1568,6 +1683,11 @@ func replay(path string) {
 		json.Unmarshal(d.Input, &h)
 		sec := res.Section("history", "replay", "replay of one recorded history")
 		runHistory(&h, sec, "history")
+	case "respawn":
+		var c respawnCase
+		json.Unmarshal(d.Input, &c)
+		sec := res.Section("respawn", "replay", "replay of one deletion")
+		runRespawn(c, sec)
 	case "parked":
 		var c parkedCase
 		json.Unmarshal(d.Input, &c)
@@ -1605,6 +1725,7 @@ func main() {
 	parked := sectionCorpus()
 	sectionHistory(rng.Fork("history"))
 	sectionParked(rng.Fork("parked"), parked)
+	sectionRespawn(corpusRespawn)
 	if args.Thorough {
 		sectionStress(rng.Fork("stress"))
 	}
